@@ -71,6 +71,10 @@ func GenExpr(t *rapid.T, st ExprStyle, label string) Expr {
 // (the last one: an encoded percent sign in front of two hex digits - the text "a%41", not "aA")
 var fillSegs = []string{"a", "b", "ab", "abc", "a:b", "a*", ":a", "*a", "b:", "x", "zz", "abcd", ":", "*", "**", ":*", "a%2541"}
 
+// FillWithEncodedSlashes adds values holding an encoded slash (one segment, not two) to what wildcards are filled with. Only
+// for checks whose rules let encoded slashes pass.
+func FillWithEncodedSlashes() { fillSegs = append(fillSegs, "a%2Fb", "a%2fb") }
+
 // Instantiate produces a raw request path matched by e.
 func Instantiate(t *rapid.T, e Expr, label string) string {
 	var sb strings.Builder
